@@ -548,7 +548,12 @@ class PortNamespace(collections.abc.MutableMapping, Port):
         # Overload mutable attributes of PortNamespace unless overridden by value in namespace_options
         for attr in dir(port_namespace):
             if is_mutable_property(PortNamespace, attr):
-                setattr(self, attr, namespace_options.pop(attr, getattr(port_namespace, attr)))
+                if attr in namespace_options:
+                    value = namespace_options.pop(attr)
+                else:
+                    # a copy, like the ports themselves: a mutable value (a default) must not be shared with the source
+                    value = copy.deepcopy(getattr(port_namespace, attr))
+                setattr(self, attr, value)
 
         if namespace_options:
             raise ValueError(
